@@ -189,6 +189,10 @@ inductive Mutation where
   | setField (o : Id) (n : Name) (v : Val) (fresh : Id)     -- `o.n = v`
   | read (o : Id) (n : Name) (fresh : Id)       -- `o.n` (materialises the default)
   | addTrait (o : Id) (n : Name) (tagged : Bool) (d : Dflt)   -- `o.add_trait(n, …)`
+  /-- `add_trait(guard, List/Dict/Set(…))` first adds and ANNOUNCES the companion event trait
+  `n` = "<guard>_items" (has_traits.py:2829-2830), which `traits()` never lists: `trait_added`
+  fires with its name, no trait becomes visible.  Nothing happens when `guard` exists already. -/
+  | announce (o : Id) (n guard : Name)
   | listAppend (c : Id) (x : Id)
   | listInsert (c : Id) (i : Nat) (x : Id)
   | listDel (c : Id) (i : Nat)
@@ -294,6 +298,13 @@ def mutate (E : Env) (st : St) : Mutation → Out
          ⟨⟨st.h.upd o (.inst (fs.map (fun f => if f.name == n then { f with tagged := tagged, dflt := d } else f))), st.H⟩, [], none⟩
        | none =>
          fire E st.H (st.h.upd o (.inst (fs ++ [⟨n, tagged, d, .unset, .equality⟩]))) o nTraitAdded .undef (.name n))
+    | _ => skip st
+  | .announce o n guard =>
+    match st.h.get o with
+    | .inst fs =>
+      (match findField fs guard with
+       | some _ => ⟨st, [], none⟩
+       | none => fire E st.H st.h o nTraitAdded .undef (.name n))
     | _ => skip st
   | .listAppend c x =>
     match st.h.get c with
